@@ -104,6 +104,11 @@ class Result:
         self.stores: list[tuple[Term, Term, ast.AST, tuple]] = []  # (loc, value, node)
         self.calls: list[tuple[Term, ast.AST, tuple]] = []  # every call, in eval order
         self.loops: list[dict] = []
+        self.local_defs: dict = {}
+
+    def closure(self) -> dict:
+        """Environment visible to a nested function defined in this one."""
+        return {**self.local_defs, **(self.env.vars if self.env else {})}
 
     def ret(self) -> Term | None:
         """Single merged return term (phi over paths) or None."""
@@ -155,7 +160,12 @@ class Evaluator:
         else:
             self.block(node.body)
         self.res.env = self.env
+        self.res.local_defs = {k: ("fn", v.qualname) for k, v in self.local_defs.items()}
         return self.res
+
+    def closure_env(self) -> dict:
+        return {**{k: ("fn", v.qualname) for k, v in self.local_defs.items()},
+                **self.env.vars}
 
     # ------------------------------------------------------------- expressions
 
